@@ -873,6 +873,9 @@ func (v *Verifier) verifyFunc(fn *ssa.Function, con *Contract) *Unit {
 		for range u.AutoObls {
 			r := <-ch
 			if !r.ok {
+				if os.Getenv("GOVC_DEBUG_HOUDINI") != "" {
+					fmt.Fprintln(os.Stderr, "houdini: dropped", r.o.Expect, "round", round)
+				}
 				if !v.autoFrameOff[r.o.Expect] {
 					failed++
 				}
@@ -972,6 +975,12 @@ func (v *Verifier) verifyFuncOnce(fn *ssa.Function, con *Contract) (unit *Unit) 
 			if _, isPtr := p.Type().Underlying().(*types.Pointer); isPtr {
 				st.assume("(not (= " + fr.vals[p].term + " 0))")
 			}
+			if _, isIface := p.Type().Underlying().(*types.Interface); isIface {
+				// an interface parameter never holds a typed nil pointer
+				// (decoders and constructors build real objects)
+				x := fr.vals[p].term
+				st.assume("(=> ((_ is VRef) (ival " + x + ")) (or (= (itag " + x + ") 0) (not (= (vref (ival " + x + ")) 0))))")
+			}
 		}
 		for _, fv := range fn.FreeVars {
 			// a captured variable that is assigned exactly once, before the
@@ -979,7 +988,21 @@ func (v *Verifier) verifyFuncOnce(fn *ssa.Function, con *Contract) (unit *Unit) 
 			// composite literal/closure, or a pointer parameter of the
 			// declaring function, which that function's own sweep assumes
 			// non-nil) is not nil when the closure runs
-			if capturedNonNil(fn, fv, 0) {
+			if capturedNonNil(fn, fv, 0, true) {
+				lv := e.loadPtr(st, fr.vals[fv], 0)
+				switch e.u.sortOf(lv.typ) {
+				case sortInt:
+					st.assume("(not (= " + lv.term + " 0))")
+				case sortIface:
+					st.assume("(not (= (itag " + lv.term + ") 0))")
+				}
+			}
+		}
+	}
+	if !(con == nil && v.sweepMode) {
+		// captured variables initialised once with a make/new/literal value
+		for _, fv := range fn.FreeVars {
+			if capturedNonNil(fn, fv, 0, false) {
 				lv := e.loadPtr(st, fr.vals[fv], 0)
 				switch e.u.sortOf(lv.typ) {
 				case sortInt:
@@ -1432,7 +1455,7 @@ func allocWrittenOnce(a *ssa.Alloc) bool {
 }
 
 // capturedNonNil: see the comment at its use in verifyFuncOnce.
-func capturedNonNil(fn *ssa.Function, fv *ssa.FreeVar, depth int) bool {
+func capturedNonNil(fn *ssa.Function, fv *ssa.FreeVar, depth int, allowParams bool) bool {
 	p := fn.Parent()
 	if p == nil || depth > 3 || !freeVarWrittenOnce(fn, fv, 0) {
 		return false
@@ -1462,7 +1485,7 @@ func capturedNonNil(fn *ssa.Function, fv *ssa.FreeVar, depth int) bool {
 					if !isStore || st.Addr != ssa.Value(bv) {
 						continue
 					}
-					if !nonNilProducer(st.Val) {
+					if !nonNilProducer(st.Val, allowParams) {
 						return false
 					}
 					found = true
@@ -1472,7 +1495,7 @@ func capturedNonNil(fn *ssa.Function, fv *ssa.FreeVar, depth int) bool {
 				}
 				ok = true
 			case *ssa.FreeVar:
-				if !capturedNonNil(p, bv, depth+1) {
+				if !capturedNonNil(p, bv, depth+1, allowParams) {
 					return false
 				}
 				ok = true
@@ -1484,13 +1507,13 @@ func capturedNonNil(fn *ssa.Function, fv *ssa.FreeVar, depth int) bool {
 	return ok
 }
 
-func nonNilProducer(v ssa.Value) bool {
+func nonNilProducer(v ssa.Value, allowParams bool) bool {
 	switch x := v.(type) {
 	case *ssa.MakeChan, *ssa.MakeMap, *ssa.Alloc, *ssa.MakeClosure, *ssa.Function, *ssa.MakeSlice:
 		return true
 	case *ssa.Parameter:
 		_, isPtr := x.Type().Underlying().(*types.Pointer)
-		return isPtr
+		return isPtr && allowParams
 	case *ssa.MakeInterface:
 		return true
 	}
